@@ -133,6 +133,9 @@ func containsYield(xs []*S) bool {
 type fctx struct {
 	breakTo *S // innermost breakable (for / switch)
 	loop    *S // innermost loop
+	// a yield-containing statement precedes the current position inside the current case clause of
+	// breakTo (so the position lies in a continuation thunk, not in the native switch statement)
+	afterYield bool
 }
 
 // Features computes the feature tags of a tree.
@@ -151,6 +154,15 @@ func features(xs []*S, c fctx, f map[string]bool, top bool) {
 	seenYield := false
 	for i, s := range xs {
 		last := i == len(xs)-1
+		if i > 0 && containsYield(xs[i-1:i]) {
+			c.afterYield = true
+		}
+		// a statement that contains a yield is rewritten as a whole: every branch of it ends in a return of a Seq,
+		// so a break nested in it is monadic as well
+		inner := c
+		if containsYield(xs[i : i+1]) {
+			inner.afterYield = true
+		}
 		switch s.K {
 		case "yield":
 			f["yield:"+s.Form] = true
@@ -168,8 +180,8 @@ func features(xs []*S, c fctx, f map[string]bool, top bool) {
 			if s.Init != "" {
 				f["if-init:"+s.Init] = true
 			}
-			features(s.A, c, f, false)
-			features(s.B, c, f, false)
+			features(s.A, inner, f, false)
+			features(s.B, inner, f, false)
 		case "switch":
 			f["switch:"+s.Form] = true
 			if s.Init != "" {
@@ -185,7 +197,7 @@ func features(xs []*S, c fctx, f map[string]bool, top bool) {
 				if n := len(cs); n > 0 && cs[n-1].K == "if" && containsYield(cs[n-1:]) {
 					f["yielding-if-last-in-case"] = true
 				}
-				features(cs, fctx{breakTo: s, loop: c.loop}, f, false)
+				features(cs, fctx{breakTo: s, loop: c.loop, afterYield: s.Init == "yield" || s.Init == "yfrom"}, f, false)
 			}
 		case "for":
 			f["for:"+s.Form] = true
@@ -206,13 +218,19 @@ func features(xs []*S, c fctx, f map[string]bool, top bool) {
 			features(s.A, fctx{breakTo: s, loop: s}, f, false)
 		case "block":
 			f["block"] = true
-			features(s.A, c, f, false)
+			features(s.A, inner, f, false)
 		case "break":
 			f["break"] = true
 			if c.breakTo != nil && c.breakTo.K == "switch" {
 				f["break-in-switch"] = true
 				if containsYield([]*S{c.breakTo}) {
-					f["break-targets-yielding-switch"] = true
+					if c.afterYield {
+						// the known finding of C01: the break sits in a continuation thunk of the case
+						f["break-targets-yielding-switch"] = true
+					} else {
+						// before any yield of its clause the break still belongs to the native switch statement
+						f["break-in-yielding-switch-before-any-yield"] = true
+					}
 				}
 			} else if c.breakTo != nil {
 				if containsYield([]*S{c.breakTo}) {
